@@ -258,3 +258,74 @@ func VerifKLz77Step() {
 	verifrt.Assert(input[offset+j] == input[offset+j-D], "C01:lz77-match-content")
 	verifrt.Assert(hist.literalCodes[litLen] == 1 && hist.distanceCodes[dsym] == 1, "C01:lz77-match-histogram")
 }
+
+// VerifKEncBytes (C01): one call of the Huffman-only byte encoder from an
+// arbitrary position near the end of the 8 KiB staging buffer, with arbitrary
+// (well-formed) codes for two byte values and end-of-block: it appends exactly
+// the codes of the bytes it reports as consumed, and the end-of-block code if
+// and only if it consumed all of them.
+func VerifKEncBytes() {
+	var h histogram
+	b := &BitBuf{output: make([]byte, 8*1024)}
+	idx := int(verifrt.U16())
+	verifrt.Assume(idx >= verifrt.Param("IDXLO") && idx <= verifrt.Param("IDXHI"))
+	b.idx = verifrt.Concretize(idx)
+	bl := int(verifrt.U8())
+	verifrt.Assume(bl >= 0 && bl <= 7)
+	b.bitLen = verifrt.Concretize(bl)
+	b.bits = verifrt.U64()
+	verifrt.Assume(b.bits>>uint(b.bitLen) == 0)
+	from, preLen, preBits := b.idx, b.bitLen, b.bits
+	// codes
+	var cnt [3]uint32
+	var code [3]uint32
+	lens := [3]int{verifrt.Param("L0"), verifrt.Param("L1"), verifrt.Param("LE")}
+	for i := 0; i < 3; i++ {
+		cnt[i] = uint32(lens[i])
+		code[i] = verifrt.U32()
+		verifrt.Assume(code[i]>>cnt[i] == 0)
+	}
+	h.setLitCode('x', code[0], cnt[0])
+	h.setLitCode('y', code[1], cnt[1])
+	h.setLitCode(256, code[2], cnt[2])
+	n := verifrt.Param("DATA")
+	data := make([]byte, n)
+	for i := range data {
+		data[i] = 'x'
+		if i%2 == 1 {
+			data[i] = 'y'
+		}
+	}
+	num := encodeBytes(&h, data, b)
+	verifrt.Cover("ran")
+	verifrt.Assert(num >= 0 && num <= n, "C01:encbytes-count-range")
+	if num == 0 && n > 0 {
+		verifrt.Assert(from >= len(b.output)-16, "C01:encbytes-refuses-with-room")
+	}
+	// expected bit string
+	want := preLen
+	pos := preLen
+	check := func(c uint32, k uint32, label string) {
+		for i := 0; i < int(k); i++ {
+			verifrt.Assert(vkAt(b, from, pos+i) == byte(c>>uint(i))&1, label)
+		}
+		pos += int(k)
+	}
+	for i := 0; i < preLen; i++ {
+		verifrt.Assert(vkAt(b, from, i) == byte(preBits>>uint(i))&1, "C01:encbytes-old-bits")
+	}
+	for i := 0; i < num; i++ {
+		if data[i] == 'x' {
+			check(code[0], cnt[0], "C01:encbytes-literal-code")
+		} else {
+			check(code[1], cnt[1], "C01:encbytes-literal-code")
+		}
+	}
+	if num == n {
+		verifrt.Cover("complete")
+		check(code[2], cnt[2], "C01:encbytes-missing-end-of-block")
+	}
+	want = pos
+	verifrt.Assert(8*(b.idx-from)+b.bitLen == want, "C01:encbytes-length")
+	verifrt.Assert(b.idx <= len(b.output), "C01:bitbuf-invariant")
+}
